@@ -429,6 +429,21 @@ func globalsCensus(r *Run, scopes []string, format string, discharge ...func(pkg
 					for _, l := range x.Lhs {
 						mark(l, x.Pos())
 					}
+					// obj.field = pkgMap: see the composite-literal case below
+					if len(x.Lhs) == len(x.Rhs) {
+						for i, rh := range x.Rhs {
+							if _, toField := ast.Unparen(x.Lhs[i]).(*ast.SelectorExpr); !toField {
+								continue
+							}
+							if id, ok := ast.Unparen(rh).(*ast.Ident); ok {
+								if v, ok := info.Uses[id].(*types.Var); ok && v.Pkg() == pkg.Types && v.Parent() == pkg.Types.Scope() {
+									if _, isMap := v.Type().Underlying().(*types.Map); isMap {
+										mark(rh, x.Pos())
+									}
+								}
+							}
+						}
+					}
 				case *ast.IncDecStmt:
 					mark(x.X, x.Pos())
 				case *ast.SendStmt:
@@ -444,6 +459,16 @@ func globalsCensus(r *Run, scopes []string, format string, discharge ...func(pkg
 						if v := rootVar(x.X); v != nil && v.Pkg() == pkg.Types && v.Parent() == pkg.Types.Scope() {
 							if _, isStruct := v.Type().Underlying().(*types.Struct); !isStruct || !isSyncType(v.Type()) {
 								mark(x.X, x.Pos())
+							}
+						}
+					}
+				case *ast.KeyValueExpr:
+					// T{field: pkgMap}: the map itself (not a copy) becomes part of an object — every writer of
+					// that object's field writes the package-level map
+					if id, ok := ast.Unparen(x.Value).(*ast.Ident); ok {
+						if v, ok := info.Uses[id].(*types.Var); ok && v.Pkg() == pkg.Types && v.Parent() == pkg.Types.Scope() {
+							if _, isMap := v.Type().Underlying().(*types.Map); isMap {
+								mark(x.Value, x.Pos())
 							}
 						}
 					}
